@@ -8,7 +8,7 @@ from typing import Any, Dict, Optional
 
 from .parser import Parser
 from .compiler import Compiler
-from .vm import VM
+from .vm import VM, _PendingThrow
 from .values import (
     UNDEFINED,
     NULL,
@@ -976,11 +976,10 @@ class Context:
                 else:
                     # Fallback: return a simple empty function
                     return JSFunction("anonymous", params, bytes(), {})
-            except (TimeLimitError, MemoryLimitError, RecursionError):
+            except (JSError, _PendingThrow, RecursionError):
+                # Syntax errors, limit errors and errors of the nested code keep their class
                 raise
             except Exception as e:
-                from .errors import JSError
-
                 raise JSError(f"SyntaxError: {str(e)}")
 
         fn_constructor = JSCallableObject(function_constructor_fn)
@@ -1109,11 +1108,10 @@ class Context:
                 bytecode_module = compiler.compile(ast)
 
                 return ctx._run_nested(bytecode_module)
-            except (TimeLimitError, MemoryLimitError, RecursionError):
+            except (JSError, _PendingThrow, RecursionError):
+                # Syntax errors, limit errors and errors of the nested code keep their class
                 raise
             except Exception as e:
-                from .errors import JSError
-
                 raise JSError(f"EvalError: {str(e)}")
 
         return eval_fn
@@ -1260,6 +1258,8 @@ class Context:
             vm.memory_base = (
                 outer.memory_base + len(outer.stack) * 100 + len(outer.call_stack) * 200
             )
+            # An exception the nested code does not catch continues in the caller
+            vm.propagate_uncaught = True
         self._current_vm = vm
         try:
             return vm.run(compiled)
